@@ -1281,7 +1281,12 @@ def translator_tie(ck):
     ck.cov["trusted_base"].append("translator harness/py2enc.py (struct.pack formats read as Prim.pack_list, the _util writers as the "
                                   "Prim writers, dict iteration = insertion order, += / append+join / + as concatenation in evaluation "
                                   "order; type guards and None-defaults dropped)")
-    return {api for fn, api in ENCODER_API.items() if r["status"].get(fn) != "intact"}
+    down = {api for fn, api in ENCODER_API.items() if r["status"].get(fn) != "intact"}
+    # a translated function that is not tied to one API (the header, the subscription/assignment blobs, the snappy
+    # constructor): if ITS tie is down every API's byte-equality sample is enlarged
+    if any(st != "intact" for fn, st in r["status"].items() if fn not in ENCODER_API):
+        down = set(ENCODER_API.values())
+    return down
 
 
 # ------------------------------------------------------------------ the check
